@@ -1,4 +1,5 @@
 import Driver.Cpu
+import Driver.Mem
 /-
   Driver: one request per line on stdin, one answer per line on stdout.
   Unknown or malformed lines answer `bad` (never a default).
@@ -8,6 +9,7 @@ open Driver
 def handle (line : String) : String :=
   let l := line.trimAsciiEnd.toString
   if l.startsWith "run " then handleRun l
+  else if l.startsWith "mem " then handleMem l
   else "bad"
 
 partial def loop (hin : IO.FS.Stream) (hout : IO.FS.Stream) : IO Unit := do
